@@ -9,6 +9,7 @@ CRATE = "e_geometry"
 DRIVER = "drv_geometry"
 DRIVER_MODULE = "Driver.Geometry"
 PROPS = "RlibModel.Props.C10"
+PROPS_SRC = "RlibModel.Props.C10Src"     # second tie: `src_*` theorems about the definitions regenerated from the source text
 PROFILES = ["release"]
 SHRINK_SEP = None
 RULE = ("case = one configuration given by its defining data (centres, radii, two points of a line or Line::new coefficients) as "
@@ -129,6 +130,55 @@ def extract(repo):
         except OSError as e:
             problems.append(f"cannot read {rel}: {e}")
     return params, problems
+
+
+# ---- second tie: the four source files regenerated as Lean terms over the abstract arithmetic on every run (tools/rs2lean_float.py) ----
+ASSUMPTIONS.append(
+    "second tie: every function of the hand-written model (Point::new/slen/len/dp/cp, the ten operator impls of Point, Line::new/between/dist/"
+    "contains/ort, Circle::new/position, dist, parallel, intersect_ll, intersect_cl, intersect_cc) is proved equal (theorems src_*_eq_model of "
+    "Props/C10Src.lean, no hypothesis, for EVERY arithmetic record G - hence for IEEE doubles bit for bit and for the reals) to the definition "
+    "that tools/rs2lean_float.py regenerates from the text of rlib/geometry/src/{point,line,circle,util}.rs on every run "
+    "(Generated/GeometrySrc.lean: a + b - c = G.sub (G.add a b) c, a > b = G.lt b a, a == b = !(G.ne a b), n.0 = G.ofInt n, EPS = G.eps, structs "
+    "and enums = the model's types with a generated shape check). Trusted there: the translator and its rule list, that f64's + - * / sqrt abs max "
+    "< != are the operations the record is instantiated with, derived Copy/Clone/PartialEq/Default/Debug taken at face value; NOT translated: "
+    "the IntoIterator impls of the two result enums, From<Point>, Debug, Show, show_struct! (differential tie only). A rewrite that re-associates "
+    "or algebraically changes the float arithmetic breaks the equality although it is an identity over the reals (intended: the model promises "
+    "the operation order of the source)")
+MANIFEST["technique"] += (" + source-to-Lean translation of rlib/geometry/src/{point,line,circle,util}.rs (terms over the abstract arithmetic) "
+                          "regenerated and proved equal to the model on every run")
+MANIFEST["text"] += (" Second tie (Props/C10Src.lean): src_*_eq_model - the definitions regenerated from the source text on every run are the model's, "
+                     "for every arithmetic (src_float_eq_model: in particular for the doubles the driver executes); src_cl_points_on_both, "
+                     "src_ll_point_on_both, src_cc_points_on_both restate the property about the regenerated definitions.")
+
+_extract_eps = extract
+
+
+def extract(repo):
+    """util::EPS and the side conditions (above), then the translation of the four source files into Generated/GeometrySrc.lean (written
+    only when its text changes).  A construct outside the translator's subset is reported with the SUBSET prefix (second tie unavailable);
+    the generated file then has no definitions, so the src_* theorems stop compiling as well (never a stale file left in place)."""
+    import sys
+    params, problems = _extract_eps(repo)
+    verif = os.path.dirname(os.path.dirname(os.path.abspath(__file__)))
+    tools = os.path.join(verif, "tools")
+    if tools not in sys.path:
+        sys.path.insert(0, tools)
+    import rs2lean_float
+    out = os.path.join(verif, "lean", "RlibModel", "Generated", "GeometrySrc.lean")
+    info, p2 = rs2lean_float.run(repo, out, "Rlib.GeometrySrc", ID)
+    if not p2:
+        # the three textual anchors of the older extractor (`self.dist(p) < EPS`, `d < -EPS`, `d > EPS`) only say that Line::contains and
+        # Circle::position still compare against the constant; once the translation succeeds this is PROVED about the regenerated text
+        # (src_line_fns_eq_model, src_position_eq_model: the comparisons are the model's, against G.eps), for any spelling of the locals.
+        # They stay in force when the source is outside the translator's subset.
+        dropped = [p for p in problems if p.endswith("no longer found")]
+        problems = [p for p in problems if not p.endswith("no longer found")]
+        if dropped:
+            params["textual_anchors_superseded_by_second_tie"] = dropped
+    params.update({"translated_from": rs2lean_float.FILES, "translated_functions": info.get("functions", []),
+                   "translated_types": info.get("types", []), "not_translated": info.get("not_translated", []),
+                   "generated_file": "lean/RlibModel/Generated/GeometrySrc.lean", "generated_file_rewritten": info.get("rewritten", False)})
+    return params, problems + p2
 
 
 def harness_args(params, profile):
